@@ -8,6 +8,7 @@ mod c04;
 mod c06;
 mod c07;
 mod c08;
+mod c09conn;
 mod c10;
 mod cookie;
 mod mk;
@@ -46,6 +47,8 @@ fn main() {
         // C12 at the connection: the session service is asked about exactly the claimed user
         "C12" => c01::run_filtered(&cli, Some("service-asked-about-other-user")),
         "C10" => c10::run_prop(&cli),
+        // C09 at the connection: the frames the router sends have the protocol's layout
+        "C09" => c09conn::run_prop(&cli),
         // C11 at the connection: the hash is taken over the secret that keys this connection and the key
         // this client was given (which of its inputs go where is decided at the call site)
         "C11" => c01::run_filtered(&cli, Some("service-asked-with-other")),
